@@ -185,7 +185,9 @@ theorem arm_inj {t : Tracker} {tx : Tx} {pre : Status} {past future : List Tx} {
       · cases h
       · simp only at h
         split at h
-        · simp only [Except.ok.injEq] at h; subst h; simp
+        · split at h
+          · cases h
+          · simp only [Except.ok.injEq] at h; subst h; simp
         · split at h
           · split at h
             · cases h
